@@ -60,6 +60,29 @@ def do_case(ctx, inp):
     for name, got, w in (("ineqs_satisfied", sat, want[0]), ("separable", sep, want[1]), ("ineq_separate_points", rowsep, want[2])):
         if got != w:
             ctx.fail("classification-wrong", {"function": name, "got": got, "want": w})
+    if inp.get("sliced") and p["rows"] and not inp.get("pdtype"):
+        # the polyhedron is a numpy SELECTION of a larger one (a row or column dropped by slicing, fancy indexing or
+        # numpy.delete): such an object still carries the larger one's labels; `separable`, which reads the matrix only,
+        # answers for the rows and columns that are there (the label-reading functions refuse such an object; not asked)
+        kind = inp["sliced"]; nr = len(p["rows"]); nc = len(p["bnds"])
+        junk = [1, [1] * nc]
+        if kind in ("tail", "head", "fancy", "delete"):
+            pos = {"tail": nr, "head": 0}.get(kind, nr // 2)
+            big = real_poly(dict(p, rows=p["rows"][:pos] + [junk] + p["rows"][pos:], prov=None), ids=inp.get("ids"))
+            g2 = {"tail": lambda: big[:-1], "head": lambda: big[1:], "fancy": lambda: big[[i for i in range(nr + 1) if i != pos]],
+                  "delete": lambda: np.delete(big, pos, 0)}[kind]()
+        else:
+            big = real_poly(dict(p, bnds=p["bnds"] + [[0, 1]], rows=[[r[0], list(r[1]) + [1]] for r in p["rows"]], prov=None),
+                            ids=(inp.get("ids") or [f"x{j}" for j in range(nc)]) + ["junk-col"])
+            g2 = big[:, :-1]
+        ctx.tags["separable-on-a-numpy-selection-of-a-larger-polyhedron-" + kind] += 1
+        try:
+            sep2 = tolist(g2.separable(arr))
+        except Exception as e:
+            ctx.fail("classification-raised", {"function": "separable", "polyhedron": "numpy selection (" + kind + ") of a larger polyhedron",
+                                               "exception": f"{type(e).__name__}: {str(e)[:200]}"}); return
+        if sep2 != want[1]:
+            ctx.fail("classification-wrong", {"function": "separable", "polyhedron": "numpy selection (" + kind + ") of a larger polyhedron", "got": sep2, "want": want[1]})
 
 
 def gen_point(rng, p):
@@ -158,4 +181,6 @@ def run(ctx):
             inp["layout"] = ctx.rng.choice(["fortran", "strided", "transposed"])
         elif ctx.rng.random() < 0.3:
             inp["ptype"] = ctx.rng.choice(["integer_ndarray", "integer_ndarray", "boolean_ndarray"])
+        if "pdtype" not in inp and ctx.rng.random() < 0.2:
+            inp["sliced"] = ctx.rng.choice(["tail", "head", "fancy", "delete", "column"])
         do_case(ctx, inp)
